@@ -81,6 +81,34 @@ func syncSource(c *Ctx, shape string) (*World, *Node) {
 		for _, v := range pb {
 			w.Add(a, &v)
 		}
+	case "diamonds", "random-dag":
+		// vertices crafted by a wallet acting as sealing node, each on two (mostly distinct) existing
+		// vertices - not only tips: several tips, diamonds, shared ancestors at different depths
+		s := a.ab.VerifSnapshot()
+		pool := [][32]byte{s.Vertices[0].Hash}
+		weights := map[[32]byte]uint64{s.Vertices[0].Hash: 0}
+		n := 14
+		if shape == "random-dag" {
+			n = 30
+		}
+		for i := 0; i < n; i++ {
+			l := pool[c.Rnd.Intn(len(pool))]
+			r := pool[c.Rnd.Intn(len(pool))]
+			if shape == "diamonds" && i >= 3 { // prefer recent, distinct parents
+				l = pool[len(pool)-1-c.Rnd.Intn(3)]
+				r = pool[len(pool)-1-c.Rnd.Intn(3)]
+			}
+			t := w.NewTrx(w.wallets[0], w.wallets[1].Address(), spice.Melange{}, []byte{byte(i), 1})
+			wt := weights[l]
+			if weights[r] > wt {
+				wt = weights[r]
+			}
+			v, _ := accountant.NewVertex(t, l, r, wt+1, w.wallets[2])
+			if err := w.Add(a, &v); err == nil {
+				pool = append(pool, v.Hash)
+				weights[v.Hash] = wt + 1
+			}
+		}
 	case "genesis-only":
 	}
 	return w, a
@@ -89,7 +117,7 @@ func syncSource(c *Ctx, shape string) (*World, *Node) {
 func init() {
 	sections["sync"] = func(c *Ctx) error {
 		c.Rep.Rule = "source ledgers (genesis only, chain, two-node braid with several tips) streamed by the real StreamDAG and loaded by the real LoadDag in stream / shuffled / reversed order; ledger, genesis wallet, index and balances compared; the same follow-up gossip offered to both; every single corruption (duplicate vertex, duplicate transaction, missing parent, second self-sealed vertex, empty transaction, non-canonical amount) must leave the node not loaded; sync from a truncated peer; non-trivial = distinct (shape, order) or corruption kind"
-		for _, shape := range []string{"genesis-only", "chain", "braid"} {
+		for _, shape := range []string{"genesis-only", "chain", "braid", "diamonds", "random-dag"} {
 			for _, order := range []string{"stream", "shuffled", "reversed"} {
 				w, src := syncSource(c, shape)
 				info := map[string]interface{}{"section": "sync", "shape": shape, "order": order}
@@ -119,7 +147,9 @@ func init() {
 				w.compareLedgers(src, dst, info, shape)
 				// follow-up: a third synced node seals new vertices; both must treat them alike
 				third := w.NewNode()
-				w.syncFrom(src, third)
+				if err := w.syncFrom(src, third); err != nil {
+					c.Violate("C14", "valid-stream-not-loaded:"+shape, fmt.Sprintf("a second node could not sync from the peer: %v", errTag(err)), info)
+				}
 				var follow []accountant.Vertex
 				for i := 0; i < 5; i++ {
 					amt := spice.Melange{Currency: 1}
@@ -131,7 +161,9 @@ func init() {
 						follow = append(follow, v)
 					}
 				}
-				follow = append(follow, follow[0]) // duplicate
+				if len(follow) > 0 {
+					follow = append(follow, follow[0]) // duplicate
+				}
 				for _, v := range follow {
 					e1 := w.Add(src, &v)
 					e2 := w.Add(dst, &v)
